@@ -1,5 +1,6 @@
 """C15 — smoothing moves only free interior points, to their neighbours' average."""
 import itertools
+import math
 
 import numpy as np
 
@@ -44,6 +45,19 @@ def pentagon_fan():
 
 
 QUAD_TOPOS = {"2x2": structured(2, 2), "3x3": structured(3, 3), "4x3": structured(4, 3), "5x5": structured(5, 5), "L-shape": l_shape(), "pentagon-fan": pentagon_fan()}
+
+
+def _slender_rotated():
+    """three slender quads (6 x 1) joined along their short edges, turned 45 degrees in their plane and tilted in space"""
+    pts, quads = structured(3, 1)
+    P = np.array(pts, dtype=float) * np.array([6.0, 1.0, 1.0])
+    c45, tilt = math.cos(math.pi / 4), 0.6
+    Rz = np.array([[c45, -c45, 0.0], [c45, c45, 0.0], [0.0, 0.0, 1.0]])
+    Rx = np.array([[1.0, 0.0, 0.0], [0.0, math.cos(tilt), -math.sin(tilt)], [0.0, math.sin(tilt), math.cos(tilt)]])
+    return (P @ Rz.T @ Rx.T + np.array([3.0, -2.0, 1.0])).tolist(), quads
+
+
+QUAD_TOPOS["3x1-slender-rotated"] = _slender_rotated()
 
 
 def spec_quad_graph(quads, npts):
@@ -96,6 +110,19 @@ def spec_hex_graph(cells, npts):
 HEX_TOPOS = {"2x2x2": hex_lattice(2, 2, 2), "3x3x3": hex_lattice(3, 3, 3), "3x2x2-L": hex_lattice(3, 2, 2, skip=[(2, 1, 0), (2, 1, 1)])}
 
 
+def _mixed_numbering(topo):
+    """the same lattice with every cell numbered in its own one of the 24 valid ways"""
+    from contracts.spec import assemblies as _A
+
+    pts, cells = topo
+    return pts, [[c[i] for i in _A.ROT[(7 * k + 3) % 24]] for k, c in enumerate(cells)]
+
+
+HEX_TOPOS["2x2x2-mixed-numbering"] = _mixed_numbering(HEX_TOPOS["2x2x2"])
+HEX_TOPOS["3x2x2-L-mixed-numbering"] = _mixed_numbering(HEX_TOPOS["3x2x2-L"])
+QUAD_SIDES = {"front": (0, 1), "right": (1, 2), "back": (2, 3), "left": (3, 0)}
+
+
 @proof("C15", "grid/boundary-and-neighbours", cases=[("quad", k) for k in QUAD_TOPOS] + [("hex", k) for k in HEX_TOPOS], level="S", samples=1,
        functions=["classy_blocks.optimize.cell:CellBase.boundary", "classy_blocks.optimize.cell:CellBase.get_common_side", "classy_blocks.optimize.cell:CellBase.add_neighbour",
                   "classy_blocks.optimize.junction:Junction.is_boundary", "classy_blocks.optimize.junction:Junction.add_neighbour", "classy_blocks.optimize.junction:Junction.add_cell",
@@ -116,6 +143,17 @@ def graph(ctx):
     ctx.prove("neighbours-are-the-edge-connected-points-not-diagonals", all({n.index for n in j.neighbours} == nbrs[j.index] for j in grid.junctions))
     ctx.prove("no-neighbour-listed-twice", all(len(j.neighbours) == len({id(n) for n in j.neighbours}) for j in grid.junctions))
     ctx.prove("junction-cells-are-the-cells-containing-the-point", all({id(c) for c in j.cells} == {id(c) for c in grid.cells if j.index in c.indexes} for j in grid.junctions))
+    # cell neighbours: on each side the cell that owns the same points, whatever its own numbering; none where there is none
+    sides = {s_: tuple(hexa.FACE_SPEC[s_]) for s_ in hexa.SIDES} if kind == "hex" else QUAD_SIDES
+    ok, detail = True, []
+    for c in grid.cells:
+        for s_, corners in sides.items():
+            want = [d for d in grid.cells if d is not c and {c.indexes[i] for i in corners} <= set(d.indexes)]
+            got = c.neighbours[s_]
+            if (got is None) != (len(want) == 0) or (got is not None and got is not want[0]):
+                ok = False
+                detail.append((grid.cells.index(c), s_))
+    ctx.prove("cell-neighbour-on-each-side-is-the-cell-sharing-that-side", ok, wrong=detail[:6])
 
 
 # ------------------------------------------------------------------------------ smoothing step on symbolic positions
